@@ -394,7 +394,28 @@ class Origins:
             if x[0] == "param" and 1 <= x[1] <= len(args):
                 return args[x[1] - 1]
             return None
-        return subst(ret, rep)
+        out = subst(ret, rep)
+        # a generic helper (`fn luma_of<C>(c: C) where Rgb888: From<C>`): calls inside it mention its own type
+        # parameters; put the type arguments of this call in their place and resolve From / Into to the impl they select
+        names = [x_["name"] for x_ in g.generics if x_.get("kind", "type") != "lifetime"]
+        cg = [a for a in node[2] if a != "'_"]
+        if names and len(names) == len(cg):
+            gmap = dict(zip(names, cg))
+
+            def fixg(x):
+                if x[0] == "call" and x[2] and any(a in gmap for a in x[2]):
+                    ng = tuple(gmap.get(a, a) for a in x[2])
+                    path = x[1]
+                    if path in ("core::convert::From::from", "core::convert::Into::into") and len(ng) >= 2:
+                        tgt, src = (ng[0], ng[1]) if path.endswith("From::from") else (ng[1], ng[0])
+                        for i_ in prog.impls.values():
+                            if i_.get("trait") == "core::convert::From" and "from" in i_["fns"] and ty_str(i_["self_ty"]) == tgt \
+                                    and len(i_.get("trait_args", [])) >= 2 and ty_str(i_["trait_args"][1]) == src:
+                                return ("call", prog.fns[i_["fns"]["from"]].path, ng) + tuple(x[3:])
+                    return ("call", path, ng) + tuple(x[3:])
+                return None
+            out = subst(out, fixg)
+        return out
 
     def _rvalue(self, rv, bb, j):
         k = rv["k"]
